@@ -63,6 +63,35 @@ CHECKS = {
                 "non-integral float truncates (documented, not judged).",
         "technique": "Lean 4 proof over the typed-update model + differential correspondence with Profile.update and the real CLI route",
     },
+    "C01": {
+        "text": "The pipeline as a composition of machine-checked links over the Lean models of the stages. Major stage (model of "
+                "solve_major_model, tied structurally to the real CBC model by C02): for EVERY instance, if the evidence is the zero-error "
+                "evidence of a multiset k of candidate alleles (predicate Planted: k fills the structure, every variant / reference row is "
+                "observed on exactly the planted carriers) then the planted assignment is a feasible point with objective 0 "
+                "(planted_major_feasible, all seven constraint families discharged), no feasible point scores below 0 (hence the planted "
+                "multiset is an optimum), and every optimum calls for every row exactly the planted number of carriers and flags nothing novel "
+                "(major_optima_carry_planted_variants: nothing added, nothing lost). Minor stage (model of solve_minor_model, tied by C04): the "
+                "objective of every feasible point is at least its absolute row error (miss / add / novel-core / phase terms proved "
+                "non-negative from the product gadgets), so whenever some point scores 0 every optimum carries every considered variant on "
+                "exactly the observed number of copies. Evidence: observed copy number of a row under uniform depth; the minor-stage filter "
+                "keeps deleted-base observations (shape regenerated from source). The boolean the driver evaluates (plantedB) is proved "
+                "equivalent to Planted. Tie, per simulated sample (error-free BAMs written with pysam: both strands, with/without "
+                "pseudogene, SNP/ins/del/multi-substitution alleles, 2-4 copies, whole-gene deletion, fusions, read length 50-250, depth "
+                "20-40, profile from a simulated reference sample) run through the real genotype(): (1) Planted decided by Lean on the real "
+                "inputs of solve_major_model, (2) the planted point of the refinement model evaluated by Lean in MinorInst.build of the real "
+                "inputs of solve_minor_model - feasible, objective equal to the real optimum, (3) the conclusion compared with the result: "
+                "planted multiset among the best solutions when the planted structure is CN-optimal, every best solution's variants (with "
+                "multiplicity) equal to the simulated haplotypes. Three genuine defects found and repaired by fix: commits; one input class "
+                "(two indels <= 20 bp apart) is a known finding.",
+        "design_ref": "DESIGN.md section 4 (C01), 5",
+        "note": "PARTIAL: feasibility of the planted point of the MINOR model and the premise Planted (the pileup of error-free reads is the "
+                "zero-error evidence) are decided per sample by evaluating the Lean definitions on the real stage inputs (translation "
+                "validation), not proved for all samples; read parsing itself is C06/C08, depth normalisation C07, CN optimality is a "
+                "premise of the property (C03), enumeration / selection C05/C10. Simulation is aligner-free (CIGARs written directly); "
+                "indelpost, pysam trusted. Indels closer than 15 bp to the end of a read run are not planted (no flanking sequence in the "
+                "N-padded reference aldy hands to indelpost).",
+        "technique": "Lean 4 proof (constructive feasibility of the planted point, objective lower bounds, exactness of zero-error optima) + per-sample evaluation of the theorems' hypotheses on real stage inputs + full-pipeline correspondence on simulated BAMs",
+    },
     "C14": {
         "text": "Lean world model (catalogue + evidence as state, every modelled query / accessor / filter / stage as an operation): machine-checked "
                 "that any history of operations leaves the world unchanged and that the answer to an operation is independent of the history "
